@@ -72,8 +72,8 @@ func wgStressChild(n int) {
 		sv.Shutdown()                                           // public API, e.g. called from an admin endpoint
 		select {
 		case <-done:
-		case <-time.After(10 * time.Second):
-			fmt.Fprintln(os.Stderr, "panic: wgstress: Run() did not return within 10 s of Shutdown() (iteration", it, ") go-supervisor/")
+		case <-time.After(180 * time.Second):
+			fmt.Fprintln(os.Stderr, "panic: wgstress: Run() did not return within 180 s of Shutdown() (iteration", it, ") go-supervisor/")
 			os.Exit(3)
 		}
 	}
